@@ -412,7 +412,7 @@ pub fn run(p: &Params, rep: &mut Report) {
         if let Some(r) = h.model.resources.values().next().cloned() {
             let s = |x: &str| DataValue::String(x.into());
             let pool: Vec<DataValue> = vec![
-                s("https://example.org/x"), s("urn:isbn:123"), s("_:b0"), s("file:///tmp/x"), s("http://with space"), s("mailto:x"), s("https:"), s(":"), s("http"),
+                s("https://example.org/x"), s("urn:isbn:123"), s("_:b0"), s("file:///tmp/x"), s("http://with space"), s("mailto:x"), s("https:"), s(":"), s("http"), s("_s1:w2"), s("file1.txt:intro"), s("httpx:y"), s("urnal:1"), s("filename:hello.txt"),
                 DataValue::List(vec![s("https://example.org/x")]),
                 DataValue::List(vec![DataValue::List(vec![s("urn:isbn:123")])]),
                 DataValue::List(vec![s("https://example.org/x"), s("x")]),
@@ -426,7 +426,9 @@ pub fn run(p: &Params, rep: &mut Report) {
             ];
             for n in 0..rng.below(4) {
                 let value = rng.pick(&pool).clone();
-                let op = Op::Annotate(AnnReq { id: Some(format!("typed-{}", n)), target: Some(SelReq::Res(Ref::Id(r.id.clone()))), data: vec![DataReq { set: Ref::Id("plain".into()), id: Ref::None, key: Ref::Id(format!("t{}", n)), value }] });
+                // identifiers that start like a scheme without being one get the configured prefix like any other id
+                let id = if rng.chance(1, 3) { format!("{}{}", rng.pick(&["_s1:w", "file1.txt:p", "httpx:", "urnal:", "typed-"]), n) } else { format!("typed-{}", n) };
+                let op = Op::Annotate(AnnReq { id: Some(id), target: Some(SelReq::Res(Ref::Id(r.id.clone()))), data: vec![DataReq { set: Ref::Id("plain".into()), id: Ref::None, key: Ref::Id(format!("t{}", n)), value }] });
                 let _ = h.step(&op);
             }
         }
